@@ -87,6 +87,12 @@ func specItems(prop string, sp *Spec, bound int, strats []int, tags []string, or
 			Sample: sp.String(),
 			Exec: func(ch mcrt.Chooser, cfg mcrt.Config) *explore.Outcome {
 				x := NewX()
+				cfg.OnRendezvous = func(sender, receiver, _ string) {
+					// a render cycle begins when the container goroutine takes a refresh request
+					if strings.HasSuffix(receiver, ">p.serve") && (strings.Contains(sender, "RefreshListener") || strings.Contains(sender, "tryEarlyRefresh")) {
+						x.CycleBegin = append(x.CycleBegin, mcrt.Step())
+					}
+				}
 				res := mcrt.Run(cfg, ch, func() { sp.Run(x) })
 				out := &explore.Outcome{Res: res}
 				for r := range res.Roles {
